@@ -2686,16 +2686,51 @@ DEFINE_OUTPUT_FUNCTIONS(PIP_Solution_Node)
 
 DEFINE_OUTPUT_FUNCTIONS(Artificial_Parameter)
 
+// The same handlers as CATCH_ALL (same classes, same order, same codes
+// passed to the error handler) for a function returning a pointer:
+// the error is reported by returning a null pointer.
+#define CATCH_STD_EXCEPTION_RETURNING_NULL(exception, code) \
+catch (const std::exception& e) { \
+  notify_error(code, e.what()); \
+  return nullptr; \
+}
+
+#define CATCH_ALL_RETURNING_NULL \
+CATCH_STD_EXCEPTION_RETURNING_NULL(bad_alloc, PPL_ERROR_OUT_OF_MEMORY) \
+CATCH_STD_EXCEPTION_RETURNING_NULL(invalid_argument, PPL_ERROR_INVALID_ARGUMENT) \
+CATCH_STD_EXCEPTION_RETURNING_NULL(domain_error, PPL_ERROR_DOMAIN_ERROR) \
+CATCH_STD_EXCEPTION_RETURNING_NULL(length_error, PPL_ERROR_LENGTH_ERROR) \
+CATCH_STD_EXCEPTION_RETURNING_NULL(logic_error, PPL_ERROR_LOGIC_ERROR) \
+CATCH_STD_EXCEPTION_RETURNING_NULL(overflow_error, PPL_ARITHMETIC_OVERFLOW) \
+CATCH_STD_EXCEPTION_RETURNING_NULL(runtime_error, PPL_ERROR_INTERNAL_ERROR) \
+CATCH_STD_EXCEPTION_RETURNING_NULL(exception, PPL_ERROR_UNKNOWN_STANDARD_EXCEPTION) \
+catch (timeout_exception&) { \
+  reset_timeout(); \
+  notify_error(PPL_TIMEOUT_EXCEPTION, "PPL timeout expired"); \
+  return nullptr; \
+} \
+catch (deterministic_timeout_exception&) { \
+  reset_deterministic_timeout(); \
+  notify_error(PPL_TIMEOUT_EXCEPTION, "PPL deterministic timeout expired"); \
+  return nullptr; \
+} \
+catch (...) { \
+  notify_error(PPL_ERROR_UNEXPECTED_ERROR, \
+               "completely unexpected error: a bug in the PPL"); \
+  return nullptr; \
+}
+
 char*
 ppl_io_wrap_string(const char* src,
                    unsigned indent_depth,
                    unsigned preferred_first_line_length,
-                   unsigned preferred_line_length) {
+                   unsigned preferred_line_length) try {
   using namespace IO_Operators;
   return strdup(wrap_string(src, indent_depth,
                             preferred_first_line_length,
                             preferred_line_length).c_str());
 }
+CATCH_ALL_RETURNING_NULL
 
 int
 ppl_io_set_variable_output_function(ppl_io_variable_output_function_type* p)
